@@ -18,7 +18,6 @@ import (
 	"cmp"
 	"log/slog"
 	"net/http"
-	"strconv"
 	"time"
 )
 
@@ -70,13 +69,14 @@ func calculateCurrentAge(
 	h http.Header,
 	date, requestTime, responseTime time.Time,
 ) *Age {
-	ageVal := 0
-	if ageStr := h.Get("Age"); ageStr != "" {
-		ageVal, _ = strconv.Atoi(ageStr)
+	ageVal := time.Duration(0)
+	if v, valid := RawDeltaSeconds(h.Get("Age")).Value(); valid {
+		// Saturated delta-seconds; capped so that adding delays cannot overflow.
+		ageVal = min(v, maxAgeValue)
 	}
 	apparentAge := max(responseTime.Sub(date), 0)
 	responseDelay := max(responseTime.Sub(requestTime), 0)
-	correctedAgeValue := time.Duration(ageVal)*time.Second + responseDelay
+	correctedAgeValue := ageVal + responseDelay
 	correctedInitialAge := max(apparentAge, correctedAgeValue)
 	residentTime := max(clock.Since(responseTime), 0)
 	return &Age{
@@ -86,6 +86,9 @@ func calculateCurrentAge(
 }
 
 const maxDuration = 1<<63 - 1
+
+// maxAgeValue caps the Age header value at 2^31 seconds (RFC 9111 §1.2.2).
+const maxAgeValue = (1 << 31) * time.Second
 
 // FreshnessCalculator describes the interface implemented by types that can
 // calculate the freshness of a cached response based on request and response
